@@ -1,7 +1,7 @@
 (* C12 — uniform, bounded, ternary, fixed-weight samplers: exact support and bias bounds.  Statements only.
    A probability under a uniform tape is a preimage count. *)
 From Coq Require Import ZArith List Arith.
-From NTT Require Import Small Samplers SamplersExec Reservoir.
+From NTT Require Import Small Samplers SamplersExec Reservoir ReservoirSlots.
 Local Open Scope Z_scope.
 
 (* uniform: residue r is produced by exactly the b-bit words r and (if it fits) r+p: every residue reachable, ratio <= 2 *)
@@ -27,6 +27,22 @@ Print Assumptions C12_ternary_counts.
 Theorem C12_reservoir_uniform : forall h m T, length T = (h + m)%nat -> weight T = h -> Reservoir.cnt T (sets h m) = fact m.
 Proof. exact uniform. Qed.
 Print Assumptions C12_reservoir_uniform.
+
+(* the slot array `hitted` of the code refines that subset process: over ALL tuples of accepted draws (pos_k in [0,k], k = h..h+m-1),
+   the final slot arrays -- as position sets -- are a permutation of the subset process, so every h-subset of the h+m positions is
+   the final position set of exactly m! of the (h+1)(h+2)...(h+m) tuples; and the update used by the executable model is that step *)
+Theorem C12_slots_refine_subsets : forall h m, Permutation.Permutation (map (char (h + m)) (runs h m)) (sets h m).
+Proof. exact runs_refine. Qed.
+Print Assumptions C12_slots_refine_subsets.
+Theorem C12_slots_uniform : forall h m T, length T = (h + m)%nat -> weight T = h ->
+  Reservoir.cnt T (map (char (h + m)) (runs h m)) = fact m /\ length (runs h m) = rising h m.
+Proof. exact slots_uniform_count. Qed.
+Print Assumptions C12_slots_uniform.
+Theorem C12_slot_step_is_model_update : forall h hit pos k,
+  map Z.of_nat (slot_step h hit pos k) =
+  (if Z.of_nat pos <? Z.of_nat h then set_nth (map Z.of_nat hit) (Z.to_nat (Z.of_nat pos)) (Z.of_nat k) else map Z.of_nat hit).
+Proof. exact slot_step_Z. Qed.
+Print Assumptions C12_slot_step_is_model_update.
 
 (* the rejection step maps accepted words uniformly onto [0,k]: index r has exactly rs preimages among the accepted words *)
 Theorem C12_draw_preimages : forall k1 r, 0 < k1 <= W64 -> 0 <= r < k1 ->
